@@ -76,7 +76,7 @@ def verify_one(sid, all_checks=False, tier="quick"):
         checks = {}
         res = _check(pid, tree, tier)
         checks["%s/%s" % (pid, tier)] = res
-        if res["rc"] != 1 and tier == "quick":
+        if res["rc"] != 1 and tier == "quick" and not os.environ.get("BV_SEEDED_NO_THOROUGH"):
             checks["%s/thorough" % pid] = _check(pid, tree, "thorough")
         if all_checks:
             for f in sorted(os.listdir(os.path.join(VERIF, "bv", "props"))):
